@@ -71,6 +71,25 @@ CHECKS = {
         note="Trusted: the decimal comparator and structural equality in harness/driver/src/c10.rs.",
         technique="runtime monitoring: exhaustive pairwise execution over a value pool against algebraic-law and exact-arithmetic oracles",
     ),
+    "C11": dict(
+        text="Metamorphic monitoring with the crate as its own oracle: 15 compositional laws are executed on generated sub-expressions and documents, "
+        "comparing the search of each compound form with the searches of its parts.",
+        note="Trusted: only the harness's bookkeeping (which elements a projection ranges over is itself obtained from the crate); no external evaluator.",
+        technique="runtime monitoring: metamorphic (compositional-law) oracle using only the implementation",
+    ),
+    "C12": dict(
+        text="Error-event monitoring: every error of generated failing expressions is checked for class and failing-call location against the reference "
+        "evaluator, for coordinates and message layout against independent recomputation, and a shadow-call-stack hook checks ctx.offset at every "
+        "JmespathError::from_ctx.",
+        note="Trusted: reference parser positions, reference evaluation order on single-failing-site templates, the verif-hooks shadow stack.",
+        technique="runtime monitoring: invariant hook on error construction + reference-model oracle on observed errors",
+    ),
+    "C13": dict(
+        text="History monitoring: random interleavings of compile/clone/search/drop over a small pool are logged and every outcome is checked against the "
+        "single-shot outcome of the same pair (recomputed in fresh processes), with AST and input fingerprints watched for change.",
+        note="Trusted: fingerprints (Display of values, Debug of Ast); the single-shot table.",
+        technique="runtime monitoring: offline history checker against fresh-process ground truth",
+    ),
 }
 
 ENGINES = [
